@@ -284,6 +284,37 @@ func c07Extras() []*progCase {
 			out = append(out, &progCase{P: &Program{Rules: []*Rule{{Kind: "BEGIN", Body: Blk(&If{Cond: &BoolLit{B: a}, Then: inner2, Else: Pr(S("s2"))}, Pr(S("end")))}}}})
 		}
 	}
+	// for-in visits each element as it is at the time of the visit: bodies that replace an element the loop has not reached
+	// yet (directly, through an alias, in a callee; the container's shape never changes), with break / continue driven by
+	// the value that arrives
+	setl := &Func{Name: "setl", Params: []string{"c", "k", "val"}, Body: Blk(Ex(Asg("=", Idx(V("c"), V("k")), V("val"))))}
+	arr := func() Stmt { return Ex(Asg("=", V("a"), Arr_(N("1"), N("2"), N("3"), N("4")))) }
+	obj := func() Stmt {
+		return Ex(Asg("=", V("o"), &ObjLit{Keys: []string{"b", "a", "d", "c"}, Vals: []Expr{N("1"), N("2"), N("3"), N("4")}}))
+	}
+	lt3 := func() Expr { return Bin("<", V("i"), N("3")) }
+	next := func() Expr { return Idx(V("a"), Bin("+", V("i"), N("1"))) }
+	bodies := [][]Stmt{
+		{arr(), &ForIn{V: "v", W: "i", Iter: V("a"), Body: Blk(Pr(V("i"), V("v")), &If{Cond: lt3(), Then: Ex(Asg("=", next(), Bin("*", V("v"), N("10"))))})}, Pr(V("a"))},
+		{arr(), &ForIn{V: "v", W: "i", Iter: V("a"), Body: Blk(Pr(V("i"), V("v")), &If{Cond: lt3(), Then: Ex(Asg("+=", next(), V("v")))})}, Pr(V("a"))},
+		{arr(), Ex(Asg("=", V("b"), V("a"))), &ForIn{V: "v", Iter: V("a"), Body: Blk(Pr(V("v")), Ex(Asg("=", Idx(V("b"), N("3")), S("late"))), Ex(Asg("=", Idx(V("b"), N("0")), S("early"))))}, Pr(V("a"))},
+		{arr(), &ForIn{V: "v", W: "i", Iter: V("a"), Body: Blk(Pr(V("v")), Ex(CallE(V("setl"), V("a"), N("2"), Arr_(V("i")))))}, Pr(V("a"))},
+		{arr(), &ForIn{V: "v", W: "i", Iter: V("a"), Body: Blk(Ex(Asg("=", Idx(V("a"), V("i")), N("0"))), Pr(V("v")))}, Pr(V("a"))},
+		{arr(), &ForIn{V: "v", Iter: V("a"), Body: Blk(&If{Cond: Bin("==", V("v"), S("stop")), Then: &Break{}}, Pr(V("v")), Ex(Asg("=", Idx(V("a"), N("2")), S("stop"))))}, Pr(S("after"), V("v"))},
+		{arr(), &ForIn{V: "v", W: "i", Iter: V("a"), Body: Blk(&If{Cond: Bin("==", V("v"), S("skip")), Then: &Continue{}}, Pr(V("v")), &If{Cond: lt3(), Then: Ex(Asg("=", next(), S("skip")))})}, Pr(V("a"))},
+		{arr(), &ForIn{V: "v", Iter: V("a"), Body: &ForIn{V: "w", W: "j", Iter: V("a"), Body: Blk(Pr(V("v"), V("w")), Ex(Asg("=", Idx(V("a"), N("3")), Bin("+", V("v"), V("w")))))}}, Pr(V("a"))},
+		{arr(), &ForIn{V: "v", W: "i", Iter: V("a"), Body: Blk(Pr(V("v")), &If{Cond: lt3(), Then: Ex(Asg("=", next(), &ObjLit{Keys: []string{"from"}, Vals: []Expr{V("i")}}))})}, Pr(V("a"))},
+		{obj(), &ForIn{V: "k", W: "v", Iter: V("o"), Body: Blk(Pr(V("k"), V("v")), Ex(Asg("=", Mem(V("o"), "c"), S("late"))), Ex(Asg("=", Mem(V("o"), "d"), Arr_(V("k")))))}, Pr(V("o"))},
+		{obj(), &ForIn{V: "k", W: "v", Iter: V("o"), Body: Blk(&If{Cond: Bin("==", V("v"), S("stop")), Then: &Break{}}, Pr(V("k"), V("v")), Ex(Asg("=", Mem(V("o"), "a"), S("stop"))), Ex(Asg("=", Mem(V("o"), "b"), S("stop"))), Ex(Asg("=", Mem(V("o"), "c"), S("stop"))), Ex(Asg("=", Mem(V("o"), "d"), S("stop"))))}, Pr(S("after"), V("k"))},
+		{obj(), Ex(Asg("=", V("p"), V("o"))), &ForIn{V: "k", W: "v", Iter: V("o"), Body: Blk(Pr(V("k"), V("v")), Ex(CallE(V("setl"), V("p"), S("d"), V("k"))), Ex(Asg("+=", Mem(V("p"), "c"), N("100"))))}, Pr(V("o"))},
+		{obj(), &ForIn{V: "k", Iter: V("o"), Body: Blk(Pr(V("k"), Idx(V("o"), V("k"))), Ex(Asg("=", Mem(V("o"), "c"), N("9"))))}},
+	}
+	for _, b := range bodies {
+		out = append(out, &progCase{P: &Program{Funcs: []*Func{setl}, Rules: []*Rule{{Kind: "BEGIN", Body: Blk(b...)}}}})
+	}
+	// the same over the input document
+	out = append(out, &progCase{P: &Program{Rules: []*Rule{{Kind: "BEGINFILE", Body: Blk(&ForIn{V: "v", W: "i", Iter: V("$"), Body: Blk(Pr(V("i"), V("v")), &If{Cond: lt3(), Then: Ex(Asg("=", Idx(V("$"), Bin("+", V("i"), N("1"))), Bin("*", V("v"), N("10"))))})})}, {Body: Blk(Pr(V("$")))}}},
+		Files: []inFile{{"in.json", `[1,2,3,4]`}}, Root: true})
 	return out
 }
 
@@ -298,7 +329,7 @@ func init() {
 		ID: "C07",
 		Rule: "all statement trees with <= N nodes over 25 constructs (trace print, if / if-else with true, false and data-driven conditions, while with a counting and a false condition, three-clause for, for-in over array / object / string with one and two variables and over the three empty iterables, two-statement block, break, continue, return, next, exit), " +
 			"each placed in a BEGIN rule, in the first of two pattern rules over [1,2], and in a function called from such a rule; trees that use break/continue outside a loop or return outside a function are left out (they are syntax errors, C11); oracle: the model's exact output trace (DESIGN.md 3.11-3.13); " +
-			"a state is a (enclosing construct > construct) pair that was executed; non-trivial = such pairs; plus fixed programs for 12-key objects and unbraced dangling else",
+			"a state is a (enclosing construct > construct) pair that was executed; non-trivial = such pairs; plus fixed programs for 12-key objects, unbraced dangling else, and 14 for-in loops whose body replaces an element not yet visited (directly, through an alias, in a callee, in the input document) with break / continue driven by the value that arrives",
 		Plan:        func(t fw.Tier) int { return c7NKinds * 3 },
 		Bound:       func(t fw.Tier) string { return fmt.Sprintf("all valid trees with <= %d nodes x 3 placements", size(t)) },
 		Assumptions: []string{"reference interpreter mc/refsem (statements, calls, rule schedule)", "object key order probed from the implementation once per key sequence (3.11)"},
